@@ -717,6 +717,32 @@ def wrapped(a, b): pass
 @deco
 def wrapped2(a, b): pass
 def nothing(): return 0
+NOT_ITERABLE = None
+def star_of_global(**kw): return g(*NOT_ITERABLE, **kw)
+def dstar_of_global(*a): return g(*a, **NOT_ITERABLE)
+class RaisingProp:
+    @property
+    def prop(self): raise RuntimeError('boom')
+    @property
+    def prop2(self): raise KeyError('boom')
+    def viaprop(self, *a, **k): return self.prop(*a, **k)
+    def viaprop2(self, *a, **k): return self.prop2.attr(*a, **k)
+class KwOnlyMethod:
+    def m(**kwargs): pass
+class UnhashableCallable:
+    __hash__ = None
+    def __call__(self, a, *args, **kwargs): return g(*args, **kwargs)
+class CallableClass:
+    # calling the CLASS goes to __init__; __call__ is for its instances
+    def __init__(self, u, v=1): pass
+    def __call__(self, *args, **kwargs): return g(*args, **kwargs)
+class CallableClass2:
+    def __call__(self, x, *args, **kwargs): return g(*args, **kwargs)
+def starry(*args, **kwargs): pass
+class DeclaredMethod:
+    def inner(self, x, y=2): pass
+    @specifiers.forwards_to_method('inner')
+    def outer(self, a, *args, **kwargs): return self.inner(*args, **kwargs)
 class StaticPok:
     # modifiers under staticmethod: looked up on the class these are plain callables, not methods
     @staticmethod
@@ -746,7 +772,10 @@ OBJECTS = [lam, lam2, coro, gen, agen, walrus, matcher, comp, dcomp, starred, gl
            functools.partial(g, 1, 2, 3), functools.partial(g, 1, a=2), functools.partial(kwonly, 1),
            functools.partial(onearg, g, 1, 2, 3), functools.partial(functools.partial(g, 1), 2, 3),
            functools.partial(kwstar, 0, 1, 2), functools.partial(kwstar, 0, a=1),
-           recur_n, recur_kw, recur_lit, cycle_a, cycle_b, Rec().walk, Rec.walk, functools.partial(recur_n, 3)]
+           recur_n, recur_kw, recur_lit, cycle_a, cycle_b, Rec().walk, Rec.walk, functools.partial(recur_n, 3),
+           star_of_global, dstar_of_global, RaisingProp().viaprop, RaisingProp().viaprop2, KwOnlyMethod().m, KwOnlyMethod.m,
+           UnhashableCallable(), CallableClass, CallableClass(1), CallableClass2, CallableClass2(),
+           functools.partial(starry, kwargs=1), functools.partial(starry, args=1), DeclaredMethod().outer, DeclaredMethod.outer]
 '''
 
 
@@ -769,22 +798,46 @@ def rt_adversarial(req):
                              ('signatures.signature', signatures.signature)):
                 o = _outcome(fn, obj)
                 if insp[0] == 'ok' and o[0] != 'ok':
-                    problems.append('retrieval-raises: %s(%r) raised %s although inspect.signature succeeds' % (name, obj, o[1]))
+                    key = 'retrieval-raises'
+                    try:
+                        hash(obj)
+                    except TypeError:
+                        key = 'retrieval-raises-unhashable'            # finding D52
+                    if isinstance(obj, functools.partial) and o[1] == 'ValueError':
+                        try:
+                            taken = {q.name for q in inspect.signature(obj.func).parameters.values()
+                                     if q.kind in (q.VAR_POSITIONAL, q.VAR_KEYWORD, q.POSITIONAL_ONLY)}
+                        except Exception:  # noqa
+                            taken = set()
+                        if taken & set(obj.keywords or ()):
+                            key = 'retrieval-raises-partial-keyword-named-like-parameter'     # finding D51
+                    problems.append('%s: %s(%r) raised %s although inspect.signature succeeds' % (key, name, obj, o[1]))
                 elif insp[0] == 'ok' and o[1] != 'UpgradedSignature':
                     problems.append('not-upgraded: %s(%r) returned a %s' % (name, obj, o[1]))
                 elif insp[0] != 'ok' and o[0] != 'ok' and o[1] != insp[1]:
                     problems.append('different-exception: %s(%r) raised %s, inspect.signature raised %s' % (name, obj, o[1], insp[1]))
+                elif insp[0] == 'ok' and o[0] == 'ok' and isinstance(obj, type) and name == 'sigtools.signature':
+                    # calling a class goes to its constructor: what is reported must not accept calls the constructor rejects
+                    own, R = _params3(insp[2]), _params3(o[2])
+                    if len(own) <= 6 and len(R) <= 6:
+                        for m_, K_ in _orc.shapes_for([own, R], foreign=('zz_',), maxk=2):
+                            if _orc.non_colliding(R, [own], K_) and _orc.acc(R, m_, K_) and not _orc.acc(own, m_, K_):
+                                problems.append('class-widens: sigtools.signature(%r) = %s accepts (%d,%s) but calling the class takes %s' % (
+                                    obj, o[2], m_, K_, insp[2]))
+                                break
         # the Sphinx hook on the named members of this module (it resolves the dotted name itself)
         import sys as _sys
         from sigtools import sphinxext
         _sys.modules[mod.__name__] = mod
         try:
             for dotted in ('StaticPok.helper', 'StaticPok.helper2', 'StaticPok.meth', 'StaticPok', 'Body.m', 'Body.s', 'Body.c', 'Body',
-                           'NoSelf.m', 'two', 'wrapped2', 'lam', 'recur_n'):
+                           'NoSelf.m', 'two', 'wrapped2', 'lam', 'recur_n', 'DeclaredMethod.outer', 'DeclaredMethod', 'CallableClass',
+                           'RaisingProp.viaprop', 'KwOnlyMethod.m', None):
                 try:
                     with warnings.catch_warnings():
                         warnings.simplefilter('ignore')
-                        r = sphinxext.process_signature(None, 'function', mod.__name__ + '.' + dotted, None, None, '(PASSED)', 'RET')
+                        # None: the module itself (a top-level module name)
+                        r = sphinxext.process_signature(None, 'function', mod.__name__ + ('.' + dotted if dotted else ''), None, None, '(PASSED)', 'RET')
                     if not (isinstance(r, tuple) and len(r) == 2 and all(isinstance(x, str) for x in r)):
                         problems.append('sphinx-hook-result: process_signature(%s) returned %r' % (dotted, r))
                 except BaseException as e:  # noqa
@@ -793,7 +846,7 @@ def rt_adversarial(req):
             _sys.modules.pop(mod.__name__, None)
     finally:
         progs.unload(fname)
-    return ('ok', tuple(problems[:3]), 'objects:%d' % n)
+    return ('ok', tuple(problems[:12]), 'objects:%d' % n)
 
 
 RT.update({'retrieve': rt_retrieve, 'sphinx': rt_sphinx, 'adversarial': rt_adversarial})
